@@ -11,7 +11,7 @@ pub fn prop() -> Prop {
     Prop {
         id: "C20",
         level: "model_checking",
-        rule: "the real jawk binary built from the working tree, spawned with pipes: 18 inputs (clean, noisy, junk words and broken literals between values, truncated tail, empty; 3000 rows, one 70 KB row, 1500 diagnostics, a long clean stream with a truncated tail - output beyond every stdout buffer) x 4 --on-error policies x 22 configurations (9 valid pipelines incl. options unrelated to error handling such as --only-objects-and-arrays, --unique, cache size, styles, split+group; 11 classes of invalid configuration, missing input file, file argument) x stdout in {pipe, pipe whose reader is gone (EPIPE), /dev/full} x row separator with/without newline; all combinations; non-trivial = the run produces output or must fail; distinct by construction; inputs that cannot be read: /proc/self/mem as a file argument after a readable file, a directory as the standard input",
+        rule: "the real jawk binary built from the working tree, spawned with pipes: 18 inputs (clean, noisy, junk words and broken literals between values, truncated tail, empty; 3000 rows, one 70 KB row, 1500 diagnostics, a long clean stream with a truncated tail - output beyond every stdout buffer) x 4 --on-error policies x 24 configurations (11 valid pipelines, two with --skip/--take at the edge of the 64-bit range, incl. options unrelated to error handling such as --only-objects-and-arrays, --unique, cache size, styles, split+group; 11 classes of invalid configuration, missing input file, file argument) x stdout in {pipe, pipe whose reader is gone (EPIPE), /dev/full} x row separator with/without newline; all combinations; non-trivial = the run produces output or must fail; distinct by construction; inputs that cannot be read: /proc/self/mem as a file argument after a readable file, a directory as the standard input",
         explanation: "every combination is executed as a child process and compared with the in-process run of the same arguments: stdout = exactly the in-process stdout sink, under --on-error=stderr the diagnostics = exactly the in-process stderr sink and none on stdout, exit status 0 iff the in-process Result is Ok and stdout accepted every byte, otherwise non-zero with a non-empty stderr",
         assumptions: a,
         guards: vec!["unreadable-input", "output-beyond-every-buffer", "exit-nonzero-on-config-error", "exit-nonzero-on-full-stdout", "epipe", "stderr-policy-diagnostics", "unterminated-buffer-flush", "panic-policy-fails", "missing-file"],
@@ -53,6 +53,9 @@ fn configs() -> Vec<(&'static str, Vec<&'static str>, bool)> {
         ("only-objects-and-arrays", vec!["--only-objects-and-arrays"], true),
         ("only-objects-and-arrays-unique-text", vec!["--only-objects-and-arrays", "--unique", "--output-style=text"], true),
         ("filter-cache0-pretty", vec!["--filter=(not (null? .))", "--regular-expression-cache-size=0", "--style=pretty", "--utf8-strings"], true),
+        // option values at the edge of their range are still valid configurations
+        ("limits-at-the-edge", vec!["--skip=1", "--take=18446744073709551615"], true),
+        ("limits-at-the-edge-sorted", vec!["--sort-by=(stringify .)", "--skip=18446744073709551615", "--take=18446744073709551615", "--regular-expression-cache-size=1"], true),
         ("split-group", vec!["--split-by=(? (array? .) . (push [] .))", "--group-by=(stringify .)"], true),
         ("bad-expression", vec!["--filter=(len"], false),
         ("unknown-function", vec!["--select=(nosuch 1)"], false),
